@@ -6,8 +6,13 @@ Each reaction of the property is a theorem about the handler the generated chain
 `handle_missing_protocol_version`; "never parked" and "the marker table only gains presentation
 markers" hold for EVERY received line, version and fault schedule by the generic traversal, using
 the generated `message_buffer=` flags (a reaction sent with buffering on breaks `reactions_not_parked`).
+The last part is the equation `writes = expectedWrites`: the handler model refines the readable
+reaction table of `Model/WriteSpec.lean`, for every state, configuration, version and message —
+and, with `expectedAttempts`, under every schedule of failing writes.
 -/
 import AioMySensors.Properties.C07
+import AioMySensors.Properties.C02
+import AioMySensors.Lemmas.Writes
 
 namespace AioMySensors.C06
 open AioMySensors M
@@ -295,5 +300,311 @@ theorem reports_write_nothing (m : Msg) (w : W) :
     cases hp : getProtocolE m.payload with
     | error c => by_cases hc : pyCaught c (clause Gen.excVersion 0) = true <;> simp [hc, M.raise]
     | ok v => simp [M.pure, M.seq, M.bind, M.modifySt]
+
+/-! ### `writes = expectedWrites`: the refinement to the readable specification
+
+`Model/WriteSpec.lean` spells the property's reaction table as one pure function of the
+configuration, the state and the received message (`expectedWrites`; under a schedule of failing
+writes: `expectedAttempts`).  It never runs a handler.  Here the handler model is proved to write
+exactly that: per handler and per decorator in `Lemmas/Writes.lean` (judgement `Acts`), over the
+generated dispatch tables below. -/
+
+open WriteSpec
+
+/-- **The summary of the whole dispatch**, for a message with a valid command, in terms of the
+specification. -/
+theorem dispatch_acts (env : Env) (m : Msg) (w : W) (hcmd : 0 ≤ m.cmd ∧ m.cmd ≤ 4) (hs : ParkedSets w.st m.node) :
+    ∃ miss pv' mk, Acts m (dispatch env w.st.proto m) w (attempts env w.st m w.faults) miss pv' mk := by
+  have hc : m.cmd = 0 ∨ m.cmd = 1 ∨ m.cmd = 2 ∨ m.cmd = 3 ∨ m.cmd = 4 := by omega
+  rcases hc with hc | hc | hc | hc | hc
+  · -- presentation
+    rw [dispatch_presentation env _ m hc]
+    have h1 : ∀ st : St, st.proto = w.st.proto → first env st m = [] := fun st _ => by spec_simp [internalName, hc]
+    have hq : ∀ st : St, st.proto = w.st.proto → st.pv = w.st.pv → query st m = query w.st m := fun st h1 h2 => by
+      simp [query, reportsVersion, isInternal, internalName, hc, h2, Gen.cmdInternal]
+    have core : ∀ w1 : W, w1.faults = w.faults → w1.st.proto = w.st.proto → w1.st.pv = w.st.pv →
+        Acts m (wrapMissingPV (hPresentation env w.st.proto) m) w1
+          (andThen (attempt ((first env w.st m).map encode) w.faults) (attempt ((query w.st m).map encode)))
+          (m.child != Gen.systemChildId && !knownNode w1.st m) (pvAfter w.st m) (w1.st.ibuf.has (markerKey m.node)) := by
+      intro w1 hf hp hv
+      refine (acts_wrapMissingPV (acts_hPresentation env w.st.proto m w1)).cast ?_ rfl ?_ rfl
+      · rw [← hq w1.st hp hv, query_eq, h1 w.st rfl, hf]
+        have : pvAfter w1.st m = (if m.child = Gen.systemChildId ∧ m.node = 0 ∧ (getProtocol? m.payload).isSome = true
+            then some m.payload else w1.st.pv) := by spec_simp [internalName, hc, and_assoc]
+        rw [this]; simp [attempt_nil]
+      · rw [hv]; spec_simp [internalName, hc, and_assoc]
+    by_cases hv : Ver.v20 ≤ w.st.proto
+    · simp only [hv, if_true]
+      have hpre := acts_seq_modify (m := m) (x := wrapMissingPV (hPresentation env w.st.proto) m) (w := w)
+        (fun s => if s.ibuf.has (m.node, m.child, Gen.iPresentation) then
+          { s with ibuf := s.ibuf.erase (m.node, m.child, Gen.iPresentation) } else s)
+        (core _ rfl (by dsimp only; split <;> rfl) (by dsimp only; split <;> rfl))
+      have := acts_command (env := env) (inner := fun m => seq (prePresentation20 m) (wrapMissingPV (hPresentation env w.st.proto) m))
+        hpre ?_
+      · rwa [wrapNC_new _ _ hv] at this
+      · by_cases hch : m.child = Gen.systemChildId
+        · spec_simp [last, internalName, hc, hch]
+        · have hkey : markerKey m.node ≠ (m.node, m.child, Gen.iPresentation) := by
+            simp only [markerKey, ne_eq, Prod.mk.injEq, true_and, and_true]; exact fun h => hch h.symm
+          have hmk : (if w.st.ibuf.has (m.node, m.child, Gen.iPresentation) = true then
+              { w.st with ibuf := w.st.ibuf.erase (m.node, m.child, Gen.iPresentation) } else w.st).ibuf.has (markerKey m.node) =
+              w.st.ibuf.has (markerKey m.node) := by
+            split
+            · exact PDict.has_erase_ne _ hkey
+            · rfl
+          have hkn : knownNode (if w.st.ibuf.has (m.node, m.child, Gen.iPresentation) = true then
+              { w.st with ibuf := w.st.ibuf.erase (m.node, m.child, Gen.iPresentation) } else w.st) m = knownNode w.st m := by
+            split <;> rfl
+          rw [hmk, hkn]
+          cases hk : knownNode w.st m <;> spec_simp [last, internalName, hc, hch, hk, hv]
+    · simp only [hv, if_false]
+      have := acts_command (env := env) (core w rfl rfl rfl) (by spec_simp [last, internalName, hc, hv])
+      rwa [wrapNC_old _ _ hv] at this
+  · -- set
+    rw [dispatch_set env _ m hc]
+    refine acts_command (miss := !knownChild w.st m) (pv' := w.st.pv) (mk := w.st.ibuf.has (markerKey m.node)) ?_ ?_
+    · refine (acts_wrapMissingPV (acts_hSet m w)).cast ?_ rfl rfl rfl
+      rw [query_eq]
+      have h1 : first env w.st m = if knownChild w.st m = true ∧ ((w.st.nodes.get? m.node).map (·.reboot)) = some true then
+        [(⟨m.node, Gen.systemChildId, Gen.cmdInternal, 0, Gen.iReboot, []⟩ : Msg)] else [] := by
+        spec_simp [internalName, hc]
+      have h2 : pvAfter w.st m = w.st.pv := by spec_simp [internalName, hc]
+      rw [h1, h2]
+    · cases hk : knownChild w.st m <;> spec_simp [last, internalName, hc, hk]
+  · -- req
+    rw [dispatch_req env _ m hc]
+    refine acts_command (miss := !knownChild w.st m) (pv' := w.st.pv) (mk := w.st.ibuf.has (markerKey m.node)) ?_ ?_
+    · refine (acts_wrapMissingPV (acts_hReq m w)).cast ?_ rfl rfl rfl
+      rw [query_eq]
+      have h2 : pvAfter w.st m = w.st.pv := by spec_simp [internalName, hc]
+      rw [h2]
+      congr 3
+      cases hsv : storedValue? w.st m <;> spec_simp [internalName, hc, hsv]
+    · cases hk : knownChild w.st m <;> spec_simp [last, internalName, hc, hk]
+  · -- internal
+    rw [dispatch_internal env _ m hc]
+    obtain ⟨miss, mk, h⟩ := acts_hInternal env m w hc hs
+    refine ⟨miss, _, mk, (acts_wrapMissingPV h).cast ?_ rfl rfl rfl⟩
+    rw [← query_eq]
+    simp [attempts, last, hc, Gen.cmdInternal, andThen_last_nil]
+  · -- stream
+    rw [dispatch_stream env _ m hc]
+    refine acts_command (miss := !knownNode w.st m) (pv' := w.st.pv) (mk := w.st.ibuf.has (markerKey m.node)) ?_ ?_
+    · refine (acts_wrapMissingPV (acts_hStream env w.st.proto m w)).cast ?_ rfl rfl rfl
+      rw [query_eq]
+      have h1 : first env w.st m = [] := by spec_simp [internalName, hc]
+      have h2 : pvAfter w.st m = w.st.pv := by spec_simp [internalName, hc]
+      rw [h1, h2]; simp [attempt_nil]
+    · cases hk : knownNode w.st m <;> spec_simp [last, internalName, hc, hk]
+
+
+/-! ### The equation -/
+
+/-- Successful write events for lines. -/
+def okEvents (ls : List Str) : List WriteEvt := ls.map fun l => ⟨l, true⟩
+
+/-- Without failing writes the attempts of the specification are all its lines, each successful. -/
+theorem attempts_nofault (env : Env) (st : St) (m : Msg) :
+    attempts env st m [] = (okEvents (expectedWrites env st m), [], false) := by
+  simp [attempts, andThen, attempt_nofault, expectedWrites, expectedMsgs, okEvents]
+
+/-- **Under every schedule of failing writes** the write attempts of the dispatch are exactly the
+specification's: the first segment up to its first failure, then the version query even after a
+failure (it is sent from a `finally` clause), then the command-level presentation request only if
+nothing failed.  If an attempt failed the step ends in the transport error, and the schedule is
+consumed one entry per attempt. -/
+theorem writes_eq_attempts (env : Env) (m : Msg) (w : W) (hcmd : 0 ≤ m.cmd ∧ m.cmd ≤ 4) (hs : ParkedSets w.st m.node) :
+    (dispatch env w.st.proto m w).2.writes = w.writes ++ expectedAttempts env w.st m w.faults ∧
+    (dispatch env w.st.proto m w).2.faults = (attempts env w.st m w.faults).2.1 ∧
+    ((attempts env w.st m w.faults).2.2 = true → (dispatch env w.st.proto m w).1 = .error (.lib .transportFailed)) := by
+  obtain ⟨_, _, _, h⟩ := dispatch_acts env m w hcmd hs
+  exact ⟨h.writes, h.faults, h.failed⟩
+
+/-- **`writes = expectedWrites`.** For every state, configuration and message with a valid command,
+when no write fails the lines written while the message is handled are exactly
+`expectedWrites env st m`, in that order, each reported as successful. -/
+theorem writes_eq_expected (env : Env) (m : Msg) (w : W) (hcmd : 0 ≤ m.cmd ∧ m.cmd ≤ 4) (hs : ParkedSets w.st m.node)
+    (hf : w.faults = []) :
+    (dispatch env w.st.proto m w).2.writes = w.writes ++ okEvents (expectedWrites env w.st m) := by
+  rw [(writes_eq_attempts env m w hcmd hs).1, expectedAttempts, hf, attempts_nofault]
+
+/-- The same for the whole receive step of a line that decodes to `m` (the decoder only yields
+valid commands). -/
+theorem recv_writes_eq_expected (env : Env) (line : Str) (m : Msg) (w : W) (hd : decode w.st.proto line = some m)
+    (hs : ParkedSets w.st m.node) (hf : w.faults = []) :
+    (recv env line w).2.writes = w.writes ++ okEvents (expectedWrites env w.st m) := by
+  have hr := C02.rejects_out_of_range _ _ _ hd
+  have : recv env line w = dispatch env w.st.proto m w := by simp [recv, M.bind, M.getSt, hd]
+  rw [this]
+  exact writes_eq_expected env m w ⟨hr.2.2.2.2.1, hr.2.2.2.2.2.1⟩ hs hf
+
+theorem recv_writes_eq_attempts (env : Env) (line : Str) (m : Msg) (w : W) (hd : decode w.st.proto line = some m)
+    (hs : ParkedSets w.st m.node) :
+    (recv env line w).2.writes = w.writes ++ expectedAttempts env w.st m w.faults := by
+  have hr := C02.rejects_out_of_range _ _ _ hd
+  have : recv env line w = dispatch env w.st.proto m w := by simp [recv, M.bind, M.getSt, hd]
+  rw [this]
+  exact (writes_eq_attempts env m w ⟨hr.2.2.2.2.1, hr.2.2.2.2.2.1⟩ hs).1
+
+/-- Every state a history reaches from the empty gateway satisfies the hypothesis on the sleep buffer. -/
+theorem parkedSets_reachable (ops : List Op) (n : Int) : ParkedSets (stateAfter {} ops) n :=
+  parkedSets_of_sbufSet (C07.sbufInv_history ops {} C07.sbufInv_init).2 n
+
+/-- **Along every history**: whatever was received and sent before (with or without failing
+writes), a line that decodes to `m` and meets no failing write makes the controller write exactly
+`expectedWrites` of the state reached — no hypothesis on the state is left. -/
+theorem history_writes_eq_expected (ops : List Op) (env : Env) (line : Str) (m : Msg)
+    (hd : decode (stateAfter {} ops).proto line = some m) :
+    (recv env line { st := stateAfter {} ops }).2.writes = okEvents (expectedWrites env (stateAfter {} ops) m) := by
+  simpa using recv_writes_eq_expected env line m { st := stateAfter {} ops } hd (parkedSets_reachable ops m.node) rfl
+
+/-- … and under any schedule of failing writes, exactly `expectedAttempts`. -/
+theorem history_writes_eq_attempts (ops : List Op) (env : Env) (line : Str) (m : Msg) (faults : List Bool)
+    (hd : decode (stateAfter {} ops).proto line = some m) :
+    (recv env line { st := stateAfter {} ops, faults := faults }).2.writes =
+      expectedAttempts env (stateAfter {} ops) m faults := by
+  simpa using recv_writes_eq_attempts env line m { st := stateAfter {} ops, faults := faults } hd
+    (parkedSets_reachable ops m.node)
+
+/-! ### The shape under failing writes, in words -/
+
+/-- An attempt writes a prefix of its lines. -/
+theorem attempt_lines_prefix (ls : List Str) (fs : List Bool) : (attempt ls fs).1.map (·.line) <+: ls := by
+  induction ls generalizing fs with
+  | nil => simp [attempt_nil]
+  | cons l ls ih =>
+    rcases fs with _ | ⟨_ | _, fs⟩
+    · simpa [attempt] using ih []
+    · simpa [attempt] using ih fs
+    · simp [attempt, List.prefix_cons_iff]
+
+/-- … all of them unless a write failed, … -/
+theorem attempt_lines_all (ls : List Str) (fs : List Bool) (h : (attempt ls fs).2.2 = false) :
+    (attempt ls fs).1 = okEvents ls := by
+  induction ls generalizing fs with
+  | nil => simp [attempt_nil, okEvents]
+  | cons l ls ih =>
+    rcases fs with _ | ⟨_ | _, fs⟩
+    · simp only [attempt] at h ⊢; simpa [okEvents] using ih [] h
+    · simp only [attempt] at h ⊢; simpa [okEvents] using ih fs h
+    · simp [attempt] at h
+
+/-- … and a single line is always attempted. -/
+theorem attempt_single (l : Str) (fs : List Bool) : (attempt [l] fs).1.map (·.line) = [l] := by
+  rcases fs with _ | ⟨_ | _, fs⟩ <;> simp [attempt]
+
+theorem query_length (st : St) (m : Msg) : (query st m).length ≤ 1 := by
+  unfold query; split <;> simp
+
+/-- **The attempted lines under an arbitrary fault schedule**: a prefix `p` of the first segment
+(the handler's reactions; for internal messages including the presentation request), then the
+version query whenever the specification has it — also after a failed write —, then a prefix `r`
+of the last segment, which is empty unless everything before succeeded. -/
+theorem writes_prefix_of_expected (env : Env) (m : Msg) (w : W) (hcmd : 0 ≤ m.cmd ∧ m.cmd ≤ 4) (hs : ParkedSets w.st m.node) :
+    ∃ p r, ((dispatch env w.st.proto m w).2.writes.drop w.writes.length).map (·.line) =
+        p ++ (query w.st m).map encode ++ r ∧
+      p <+: (first env w.st m).map encode ∧ r <+: (last w.st m).map encode ∧
+      (r ≠ [] → p = (first env w.st m).map encode) := by
+  rw [(writes_eq_attempts env m w hcmd hs).1, List.drop_left]
+  refine ⟨(attempt ((first env w.st m).map encode) w.faults).1.map (·.line), ?_⟩
+  have hq : ∀ fs, (attempt ((query w.st m).map encode) fs).1.map (·.line) = (query w.st m).map encode := by
+    intro fs
+    have := query_length w.st m
+    match hql : query w.st m with
+    | [] => simp [attempt_nil]
+    | [q] => simpa using attempt_single (encode q) fs
+    | _ :: _ :: _ => rw [hql] at this; simp at this
+  cases hfail : (andThen (attempt ((first env w.st m).map encode) w.faults) (attempt ((query w.st m).map encode))).2.2 with
+  | true =>
+    refine ⟨[], ?_, attempt_lines_prefix _ _, List.nil_prefix, by simp⟩
+    simp only [expectedAttempts, attempts, hfail, if_true]
+    simp [andThen, hq]
+  | false =>
+    have h1 : (attempt ((first env w.st m).map encode) w.faults).2.2 = false := by
+      simp only [andThen, Bool.or_eq_false_iff] at hfail; exact hfail.1
+    refine ⟨(attempt ((last w.st m).map encode) (andThen (attempt ((first env w.st m).map encode) w.faults)
+      (attempt ((query w.st m).map encode))).2.1).1.map (·.line), ?_, attempt_lines_prefix _ _, attempt_lines_prefix _ _, ?_⟩
+    · simp only [expectedAttempts, attempts, hfail]
+      simp [andThen, hq]
+    · intro _
+      rw [attempt_lines_all _ _ h1]; simp [okEvents]
+
+
+/-! ### The specification evaluated (small closed terms) -/
+
+/-- A registry with node 1 (flagged for reboot, child 0 holding value "7" of type 2) and node 2;
+two commands parked for node 2 and one for node 1. -/
+def exSt (v : Ver) (pv : Option Str) : St :=
+  { nodes := [(1, { ntype := 17, pv := "2.0".toList, reboot := true,
+                    children := [(0, ⟨0, 6, [], [(2, "7".toList)]⟩)] }),
+              (2, { ntype := 17, pv := "2.0".toList, sleeping := true })],
+    pv := pv, proto := v,
+    sbuf := [((2, 0, 2), ⟨2, 0, 1, 0, 2, "a".toList⟩), ((1, 0, 2), ⟨1, 0, 1, 0, 2, "b".toList⟩),
+             ((2, 1, 2), ⟨2, 1, 1, 0, 2, "c".toList⟩)] }
+
+/-- The hypothesis on the sleep buffer holds in it. -/
+example : ParkedSets (exSt .v21 none) 2 := by unfold ParkedSets; decide
+
+/-- Config request while the version is unknown: the reply, then the version query. -/
+example : expectedWrites {} {} ⟨1, 255, 3, 0, 6, []⟩ = ["1;255;3;0;6;M\n".toList, "0;255;3;0;2;\n".toList] := by decide
+
+/-- Imperial configuration, version known: only the reply. -/
+example : expectedWrites { metric := false } (exSt .v22 (some "2.2".toList)) ⟨1, 255, 3, 0, 6, []⟩ = ["1;255;3;0;6;I\n".toList] := by
+  decide
+
+/-- Id request: node ids 1 and 2 are taken, 3 is handed out. -/
+example : expectedWrites {} (exSt .v15 (some "1.5".toList)) ⟨255, 255, 3, 0, 3, []⟩ = ["255;255;3;0;4;3\n".toList] := by decide
+
+/-- Time request on the leap day. -/
+example : expectedWrites { year := 2000, month := 2, day := 29, hour := 23, minute := 59, second := 59 }
+    (exSt .v20 (some "2.0".toList)) ⟨2, 255, 3, 0, 1, []⟩ = ["2;255;3;0;1;951868799\n".toList] := by decide
+
+/-- Value request: the stored value as a set message; nothing for a type without a value. -/
+example : expectedWrites {} (exSt .v14 (some "1.4".toList)) ⟨1, 0, 2, 0, 2, []⟩ = ["1;0;1;0;2;7\n".toList] ∧
+    expectedWrites {} (exSt .v14 (some "1.4".toList)) ⟨1, 0, 2, 0, 3, []⟩ = [] := by decide
+
+/-- Set from the node flagged for reboot; from node 2 (no such child): 2.x asks for a presentation, 1.x stays silent. -/
+example : expectedWrites {} (exSt .v20 (some "2.0".toList)) ⟨1, 0, 1, 0, 2, "9".toList⟩ = ["1;255;3;0;13;\n".toList] ∧
+    expectedWrites {} (exSt .v20 (some "2.0".toList)) ⟨2, 0, 1, 0, 2, "9".toList⟩ = ["2;255;3;0;19;\n".toList] ∧
+    expectedWrites {} (exSt .v15 (some "1.5".toList)) ⟨2, 0, 1, 0, 2, "9".toList⟩ = [] := by decide
+
+/-- Gateway ready: the discover broadcast from 2.0 on, never the version query. -/
+example : expectedWrites {} (exSt .v20 none) ⟨0, 255, 3, 0, 14, []⟩ = ["255;255;3;0;20;\n".toList] ∧
+    expectedWrites {} (exSt .v15 none) ⟨0, 255, 3, 0, 14, []⟩ = [] := by decide
+
+/-- A wake of node 2 (heartbeat response in 2.1, pre-sleep notification in 2.2) releases its two
+parked commands in buffer order; the 2.2 heartbeat and a non-integer heartbeat release nothing. -/
+example : expectedWrites {} (exSt .v21 (some "2.1".toList)) ⟨2, 255, 3, 0, 22, "5".toList⟩ = ["2;0;1;0;2;a\n".toList, "2;1;1;0;2;c\n".toList] ∧
+    expectedWrites {} (exSt .v22 (some "2.2".toList)) ⟨2, 255, 3, 0, 32, []⟩ = ["2;0;1;0;2;a\n".toList, "2;1;1;0;2;c\n".toList] ∧
+    expectedWrites {} (exSt .v22 (some "2.2".toList)) ⟨2, 255, 3, 0, 22, "5".toList⟩ = [] ∧
+    expectedWrites {} (exSt .v21 (some "2.1".toList)) ⟨2, 255, 3, 0, 22, "x".toList⟩ = [] := by decide
+
+/-- The order of the query and the presentation request (a 2.x protocol object with the version
+still unknown): a set from an unknown node is followed by the query and then the request, a
+battery report from it by the request and then the query. -/
+example : expectedWrites {} (exSt .v20 none) ⟨9, 0, 1, 0, 2, "1".toList⟩ = ["0;255;3;0;2;\n".toList, "9;255;3;0;19;\n".toList] ∧
+    expectedWrites {} (exSt .v20 none) ⟨9, 255, 3, 0, 0, "55".toList⟩ = ["9;255;3;0;19;\n".toList, "0;255;3;0;2;\n".toList] := by decide
+
+/-- A version reply the library accepts is followed by no query; one it rejects is. -/
+example : expectedWrites {} {} ⟨0, 255, 3, 0, 2, "2.1".toList⟩ = [] ∧
+    expectedWrites {} {} ⟨0, 255, 3, 0, 2, "x".toList⟩ = ["0;255;3;0;2;\n".toList] ∧
+    expectedWrites {} {} ⟨0, 255, 0, 0, 18, "2.2".toList⟩ = [] := by decide
+
+/-- Failing writes: the first released command fails — the second is not attempted, the version
+query still is; and a failed version query suppresses the command-level presentation request. -/
+example : expectedAttempts {} (exSt .v21 none) ⟨2, 255, 3, 0, 22, "5".toList⟩ [true] =
+      [⟨"2;0;1;0;2;a\n".toList, false⟩, ⟨"0;255;3;0;2;\n".toList, true⟩] ∧
+    expectedAttempts {} (exSt .v20 none) ⟨9, 0, 1, 0, 2, "1".toList⟩ [true] = [⟨"0;255;3;0;2;\n".toList, false⟩] ∧
+    expectedAttempts {} (exSt .v20 none) ⟨9, 0, 1, 0, 2, "1".toList⟩ [false, true] =
+      [⟨"0;255;3;0;2;\n".toList, true⟩, ⟨"9;255;3;0;19;\n".toList, false⟩] := by decide
+
+/-- The theorem applied: the writes of the handler model for a wake in the example state, obtained
+from the specification without running the handlers. -/
+example : (dispatch {} .v21 ⟨2, 255, 3, 0, 22, "5".toList⟩ { st := exSt .v21 (some "2.1".toList) }).2.writes =
+    [⟨"2;0;1;0;2;a\n".toList, true⟩, ⟨"2;1;1;0;2;c\n".toList, true⟩] := by
+  have h := writes_eq_expected {} ⟨2, 255, 3, 0, 22, "5".toList⟩ { st := exSt .v21 (some "2.1".toList) }
+    (by decide) (by unfold ParkedSets; decide) rfl
+  rw [show (exSt .v21 (some "2.1".toList)).proto = Ver.v21 from rfl] at h
+  rw [h]; decide
 
 end AioMySensors.C06
